@@ -480,3 +480,59 @@ Proof.
   apply g_add_frame in H. destruct H as [H _]. apply g_clear_frame in Hc.
   destruct Hc as [E|[E _]]; congruence.
 Qed.
+
+(* ---------------------------------------------------------------- *)
+(* every mutator result is the input itself or a new_version of it in which only the two marking
+   properties were replaced (the bridge to C05: Proofs/MarkingsVersioning.v)                       *)
+
+Definition via_new_version (c : cfg) (o o' : sobj) : Prop :=
+  o' = o \/ exists omr' gms', new_version c o omr' gms' = Ok o'.
+
+Lemma g_add_via : forall c o ms sels o', g_add_markings c o ms sels = Ok o' -> via_new_version c o o'.
+Proof.
+  intros c o ms sels o' H. unfold g_add_markings in H.
+  destruct (validate c (view o) sels); [|discriminate]. simpl in H. right. eauto.
+Qed.
+
+Lemma g_remove_via : forall c o ms sels o', g_remove_markings c o ms sels = Ok o' -> via_new_version c o o'.
+Proof.
+  intros c o ms sels o' H. unfold g_remove_markings in H.
+  destruct (validate c (view o) sels); [|discriminate]. simpl in H.
+  destruct (gms_list o) as [|g0 gs0]; [inversion H; left; reflexivity|].
+  destruct (negb (existsb _ _)) in H; [discriminate|].
+  match type of H with
+  | match compress_markings ?k with _ => _ end = _ => destruct (compress_markings k) as [[|x l]|]
+  end; right; eauto.
+Qed.
+
+Lemma g_clear_via : forall c o sels r l o', g_clear_markings c o sels r l = Ok o' -> via_new_version c o o'.
+Proof.
+  intros c o sels r l o' H. apply g_clear_inv in H. destruct H as [[_ E]|[gms' [H _]]].
+  - left. exact E.
+  - right. eauto.
+Qed.
+
+Theorem mutators_via_new_version : forall c o m sels r l o',
+  (add_markings c o m sels = Ok o' \/ remove_markings c o m sels = Ok o' \/ clear_markings c o sels r l = Ok o') ->
+  via_new_version c o o'.
+Proof.
+  intros c o m sels r l o' H. destruct sels as [ss|]; simpl in H.
+  - destruct H as [H|[H|H]]; eauto using g_add_via, g_remove_via, g_clear_via.
+  - destruct H as [H|[H|H]].
+    + right. unfold o_add_markings in H. eauto.
+    + unfold o_remove_markings in H. destruct (omr_list o) as [|x0 cur]; [inversion H; left; reflexivity|].
+      destruct (existsb _ m) in H; [discriminate|].
+      destruct (filter _ (x0 :: cur)); right; eauto.
+    + right. unfold o_clear_markings in H. eauto.
+Qed.
+
+Theorem set_via_new_version : forall c o m sels r l o',
+  set_markings c o m sels r l = Ok o' ->
+  exists o1, via_new_version c o o1 /\ via_new_version c o1 o'.
+Proof.
+  intros c o m sels r l o' H. destruct sels as [ss|]; simpl in H.
+  - unfold g_set_markings in H. destruct (g_clear_markings c o ss r l) as [o1|e] eqn:Hc; [|discriminate].
+    exists o1. split; eauto using g_clear_via, g_add_via.
+  - unfold o_set_markings in H. destruct (o_clear_markings c o) as [o1|e] eqn:Hc; [|discriminate].
+    exists o1. split; right; [unfold o_clear_markings in Hc | unfold o_add_markings in H]; eauto.
+Qed.
